@@ -21,6 +21,10 @@ type histOpts struct {
 	restarts   bool
 	queries    func(index string, nEvents int) []plan.Op // queries issued after each flush-completing op
 	finalOnly  bool
+	// noColumnDropout: batches keep all their columns. C04 sets it: a measure field absent from some events is the
+	// recorded sparse-measure finding, which C04 provokes through the designated sparse field `sp` only (so that
+	// it is attributed to that finding and not reported afresh for every other field).
+	noColumnDropout bool
 }
 
 var boolT, boolF = true, false
@@ -110,7 +114,7 @@ func genHistory(r *rand.Rand, o histOpts) *plan.Plan {
 			evs = append(evs, e.Raw)
 		}
 		ix.n += ne
-		if r.IntN(3) == 0 {
+		if r.IntN(3) == 0 && !o.noColumnDropout {
 			evs = dropColumnsFromBatch(r, evs)
 		}
 		inc.Ops = append(inc.Ops, plan.Op{Kind: "ingest", Index: ix.name, Events: evs})
@@ -435,7 +439,7 @@ func init() {
 	register(&Check{
 		ID:    "C01",
 		Level: "exploration",
-		Rule: "each case is one seeded history (1-3 indexes; 3-12 ingest batches of generated JSON events of 7 schema families; flush / forced rotation / idle-timer flush / graceful restart between them; swarm knobs: GOMAXPROCS seen by the flush code, dictionary cardinality limit, max segment size, PQS, agile tree, low-memory) executed on the real node under the seeded scheduler; after every flush-completing step a match-all query per index is compared with the event-set model. distinct = distinct (operation shape, knobs) strings; non-trivial = at least two flushed blocks",
+		Rule:  "each case is one seeded history (1-3 indexes; 3-12 ingest batches of generated JSON events of 7 schema families; flush / forced rotation / idle-timer flush / graceful restart between them; swarm knobs: GOMAXPROCS seen by the flush code, dictionary cardinality limit, max segment size, PQS, agile tree, low-memory) executed on the real node under the seeded scheduler; after every flush-completing step a match-all query per index is compared with the event-set model. distinct = distinct (operation shape, knobs) strings; non-trivial = at least two flushed blocks",
 		Run: func(c *Ctx) {
 			n := 120
 			if !c.Quick() {
@@ -464,13 +468,13 @@ func init() {
 
 var stdComponents = map[string]string{
 	"writer/reader/query engine/parsers/startup sequence/http router": "real (rewritten only by the build-time seam rules)",
-	"clock":                 "synctest fake clock",
-	"goroutine scheduling":  "simrt seeded scheduler (baton)",
-	"file system":           "real scratch directory behind simfs",
-	"network":               "in-memory listener, simnet outbound stub",
-	"telemetry (ssa)":       "stub (empty body)",
+	"clock":                              "synctest fake clock",
+	"goroutine scheduling":               "simrt seeded scheduler (baton)",
+	"file system":                        "real scratch directory behind simfs",
+	"network":                            "in-memory listener, simnet outbound stub",
+	"telemetry (ssa)":                    "stub (empty body)",
 	"blob store / S3 / enterprise hooks": "not run",
-	"process crash":         "real _exit of a real child process",
+	"process crash":                      "real _exit of a real child process",
 }
 
 // dropColumnsFromBatch removes one to three top-level fields (never the id or the timestamp) from every event of
